@@ -485,3 +485,18 @@ def _choice_term(ch):
 
 
 CONTRACTS = [GetParametersAtInstant(), LoadParameters(), ReformModifyParameters(), TracingNodeForward(), VectorialBuild(), VectorialGetItem()]
+
+
+def _dv_judge(nat):
+    if nat.get("kind") != "return":
+        return "violates", "scenario raised " + nat.get("exc", "?") + ": " + nat.get("msg", "")
+    return ("satisfies", "ok") if nat["value"]["ok"] else ("violates", "; ".join(nat["value"]["detail"])[:600])
+
+
+NATIVE_STANDINS = [
+    {"name": "a group of before_X / after_X members indexed by a vector of dates gives, element by element, the value the tree defines for the member whose range contains the date",
+     "where": "VectorialAsofDateParameterNodeAtInstant.build_from_node / __getitem__ (numpy datetime64 arrays and record arrays are outside the array algebra)",
+     "bound": "one group of five members, two dates of view, 12 key dates on and around every threshold at four datetime64 resolutions (day, month, year, second), one-element key",
+     "calls": lambda tier: [_probe("VectorialAsofDateParameterNodeAtInstant.__getitem__", "date-vectors")],
+     "judge": _dv_judge},
+]
